@@ -83,6 +83,19 @@ Proof.
   destruct (lex_run LNone rest) as [[ts st]|]; reflexivity.
 Qed.
 
+(* the same for what the grammar rule `identifier` accepts *)
+Lemma summary_is_one_token : forall (s : str) (rest : str),
+  is_identifier s = true ->
+  lex_run LNone (s ++ 40 :: rest) =
+  match lex_run LNone rest with
+  | None => None
+  | Some (ts, st) => Some (TId (lower s) :: TLP :: ts, st)
+  end.
+Proof.
+  intros s rest H. destruct (is_identifier_shape s H) as [Hs Hk].
+  exact (lex_run_ident_lp s rest Hs Hk).
+Qed.
+
 (* a string body without the closing quote character, then the quote *)
 Lemma lex_run_string : forall q p acc rest,
   forallb (fun c => negb (c =? q)) p = true ->
